@@ -25,7 +25,8 @@ EXTENDS Integers, Sequences, FiniteSets, TLC
 
 CONSTANTS Variants,        \* set of [prog |-> STRING, on |-> set of optional stages switched on]
           NBk,             \* backup names modelled per target: #name.1# .. #name.NBk#
-          Inits,           \* set of [out |-> BOOLEAN, bk |-> SUBSET 1..NBk]: is there a file / which backups exist
+          Inits,           \* set of [out |-> BOOLEAN, bk |-> SUBSET 1..NBk, link |-> BOOLEAN]: is there a file at the
+                           \* output path / which backup names exist / is the output path a symbolic link to a regular file
           Runs,            \* 1: one program run in a fresh process (the statement); 2: history extension (note N3)
           QueuePersists,   \* history: the writer is a process-wide singleton whose queue survives a failed run
           Crash1, Crash2,  \* history: crash points admitted in run 1 / run 2 (sets of [stage, when])
@@ -34,7 +35,9 @@ CONSTANTS Variants,        \* set of [prog |-> STRING, on |-> set of optional st
           DevFlushEarly,       \* deviation: the writer is flushed before the content has been serialised
           DevBackupOverwrite,  \* deviation: the backup always goes to #name.1#
           DevNoBackup,         \* deviation: the temporary file is moved over an existing file without backup
-          DevSeqOpenEarly      \* deviation: gen_seq opens (truncates) the output before the graph exists (mutant m40)
+          DevSeqOpenEarly,     \* deviation: gen_seq opens (truncates) the output before the graph exists (mutant m40)
+          DevLinkDirect,       \* deviation: an output path that is a symbolic link is opened directly (written through the link)
+          DevBackupCount       \* deviation: backup index = number of existing backups + 1 instead of the first free index
 
 VARIABLES run,     \* 1..Runs
           var,     \* variant of the current run
@@ -59,14 +62,16 @@ BkNames == [out  |-> <<"b1", "b2", "b3", "b4", "b5", "b6", "b7", "b8">>,
             out2 |-> <<"c1", "c2", "c3", "c4", "c5", "c6", "c7", "c8">>]
 Bk(t, i) == BkNames[t][i]
 BkContent == <<"bk1", "bk2", "bk3", "bk4", "bk5", "bk6", "bk7", "bk8">>
-AllPaths == TargetNames \cup {"other"} \cup {Bk(t, i) : t \in TargetNames, i \in 1..NBk}
+\* "tgt": the regular file a symbolic link at "out" points to (fs["out"] = "link" means: out is a link to tgt)
+AllPaths == TargetNames \cup {"other", "tgt"} \cup {Bk(t, i) : t \in TargetNames, i \in 1..NBk}
 Nil == [target |-> "-", content |-> "-"]
 NewC == IF run = 1 THEN "new1" ELSE "new2"
 PartC == IF run = 1 THEN "partial1" ELSE "partial2"
 
 InitFs(ini) ==
   [p \in AllPaths |->
-     IF p = "out" THEN (IF ini.out THEN "old" ELSE "absent")
+     IF p = "out" THEN (IF ini.link THEN "link" ELSE IF ini.out THEN "old" ELSE "absent")
+     ELSE IF p = "tgt" THEN (IF ini.link THEN "lold" ELSE "absent")
      ELSE IF p = "other" THEN "oth"
      ELSE IF \E i \in ini.bk : p = Bk("out", i) THEN BkContent[CHOOSE i \in ini.bk : p = Bk("out", i)]
      ELSE "absent"]
@@ -116,9 +121,12 @@ Work == /\ Running /\ sub = "idle" /\ NextStage # "-" /\ NextStage \notin Specia
         /\ pc' = pc + 1 /\ Done(NextStage)
         /\ UNCHANGED <<run, var, target, fs0, fs, queue, cur, loose, sub, idx, status>>
 
+\* open(path, "w") follows a symbolic link: the bytes go to the file the path resolves to
+Phys(t) == IF fs[t] = "link" THEN "tgt" ELSE t
+Direct == DevPlainOpen \/ (DevLinkDirect /\ fs[target] = "link")
 \* DeferredFileWriter.open(path, "w"): a path already in the queue re-opens (truncates) its temp file
 OpenDeferred ==
-        /\ Running /\ sub = "idle" /\ NextStage = "open" /\ ~DevPlainOpen
+        /\ Running /\ sub = "idle" /\ NextStage = "open" /\ ~Direct
         /\ queue' = IF HasEntry(target) THEN [queue EXCEPT ![QIdx(target)].content = "empty"]
                                         ELSE Append(queue, [target |-> target, content |-> "empty"])
         /\ pc' = pc + 1 /\ Done("open")
@@ -127,15 +135,15 @@ OpenDeferred ==
 \* open(path, "w"): gen_seq; or the deviation
 PlainOpen ==
         /\ Running /\ sub = "idle"
-        /\ NextStage = "popen" \/ (NextStage = "open" /\ DevPlainOpen)
-        /\ fs' = [fs EXCEPT ![target] = "empty"]
+        /\ NextStage = "popen" \/ (NextStage = "open" /\ Direct)
+        /\ fs' = [fs EXCEPT ![Phys(target)] = "empty"]
         /\ pc' = pc + 1 /\ Done(NextStage)
         /\ UNCHANGED <<run, var, target, fs0, queue, cur, loose, sub, idx, status>>
 
 \* serialisation goes to the temp file when the target is queued, else straight to the target (plain handle)
 SetContent(c) == IF NextStage = "write" /\ HasEntry(target)
                  THEN /\ queue' = [queue EXCEPT ![QIdx(target)].content = c] /\ fs' = fs
-                 ELSE /\ fs' = [fs EXCEPT ![target] = c] /\ queue' = queue
+                 ELSE /\ fs' = [fs EXCEPT ![Phys(target)] = c] /\ queue' = queue
 WriteBegin == /\ Running /\ sub = "idle" /\ NextStage \in {"write", "pwrite"}
               /\ SetContent(PartC) /\ sub' = "part" /\ Micro(NextStage)
               /\ UNCHANGED <<run, var, target, fs0, cur, loose, pc, idx, status>>
@@ -154,6 +162,9 @@ FlushBegin == /\ Running /\ sub = "idle" /\ NextStage = "flush"
 Cand == IF idx = 0 THEN cur.target ELSE Bk(cur.target, idx)
 FlushFind == /\ Running /\ sub = "find"
              /\ IF DevNoBackup THEN sub' = "move" /\ idx' = idx
+                ELSE IF DevBackupCount
+                     THEN (IF fs[cur.target] = "absent" THEN sub' = "move" /\ idx' = idx
+                           ELSE sub' = "backup" /\ idx' = Cardinality({i \in 1..NBk : fs[Bk(cur.target, i)] # "absent"}) + 1)
                 ELSE IF DevBackupOverwrite
                      THEN (IF fs[cur.target] = "absent" THEN sub' = "move" /\ idx' = idx ELSE sub' = "backup" /\ idx' = 1)
                 ELSE IF fs[Cand] = "absent" THEN sub' = (IF idx = 0 THEN "move" ELSE "backup") /\ idx' = idx
@@ -219,10 +230,17 @@ WorkStages(v) == StageSet(v) \ CommitStages
 FreeIdx(f, t) == {i \in 1..NBk : f[Bk(t, i)] = "absent"}
 FirstFree(f, t) == Bk(t, CHOOSE i \in FreeIdx(f, t) : \A j \in FreeIdx(f, t) : i <= j)
 
-\* the directory a successful run must leave behind
+\* what reading path p gives in directory f (one level of symbolic link)
+Reach(f, p) == IF f[p] = "link" THEN f["tgt"] ELSE f[p]
+\* the directory a successful run must leave behind.  gen_params / gen_coords: "a file previously at that path is kept
+\* under a GROMACS-style backup name" - whatever directory entry was at the path (regular file or symbolic link) now sits
+\* under the first free backup name, so the previous content is read there, and the link's target is not touched.
+\* gen_seq (no backup claimed by the statement): open(path, "w"), i.e. the file the path resolves to holds the new content.
 Expected(v, t, f, c) ==
   IF UsesBackup(v) /\ f[t] # "absent"
   THEN [p \in AllPaths |-> IF p = t THEN c ELSE IF p = FirstFree(f, t) THEN f[t] ELSE f[p]]
+  ELSE IF ~UsesBackup(v) /\ f[t] = "link"
+  THEN [p \in AllPaths |-> IF p = "tgt" THEN c ELSE f[p]]
   ELSE [p \in AllPaths |-> IF p = t THEN c ELSE f[p]]
 
 AllDone == pc = Len(Stages(var)) /\ sub = "idle"
@@ -232,21 +250,28 @@ NoEarlyEffect == (fs # fs0) => (WorkStages(var) \subseteq Completed)
 \* (2) success: complete new file in place, previous file under the first free backup name, nothing else touched
 SuccessState == AllDone => fs = Expected(var, target, fs0, NewC)
 \* (3) no file other than the target is ever modified or removed (existing backups are never overwritten)
-OthersKept == \A p \in AllPaths \ {target} : fs0[p] # "absent" => fs[p] = fs0[p]
+\*     (for gen_params / gen_coords this includes the target of a symbolic link at the output path)
+Owned == IF UsesBackup(var) THEN {target} ELSE {target, IF fs0[target] = "link" THEN "tgt" ELSE target}
+OthersKept == \A p \in AllPaths \ Owned : fs0[p] # "absent" => fs[p] = fs0[p]
 \* (4) the only file ever created besides the target is the backup, under the first free name, with the old content
 OnlyBackupCreated == \A p \in AllPaths \ {target} :
                         (fs0[p] = "absent" /\ fs[p] # "absent") =>
                             (UsesBackup(var) /\ fs0[target] # "absent" /\ p = FirstFree(fs0, target) /\ fs[p] = fs0[target])
 \* (5) the previous content is never lost, not even in the middle of the flush
-NoLoss == (UsesBackup(var) /\ fs0[target] # "absent") => \E p \in AllPaths : fs[p] = fs0[target]
+NoLoss == (UsesBackup(var) /\ fs0[target] # "absent") =>
+             \E p \in AllPaths : fs[p] = fs0[target] /\ Reach(fs, p) = Reach(fs0, target)
+\* (5b) after success the previous content of whatever the path resolved to is read under the backup name
+BackupResolves == (AllDone /\ UsesBackup(var) /\ fs0[target] # "absent") =>
+                     Reach(fs, FirstFree(fs0, target)) = Reach(fs0, target)
 \* (6) the target only ever holds the old or the complete new content (deferred programs, outside the flush)
-TargetWhole == (UsesBackup(var) /\ sub \notin {"backup", "move"}) => fs[target] \in {fs0[target], NewC}
+TargetWhole == (UsesBackup(var) /\ sub \notin {"backup", "move"}) =>
+                  (fs[target] \in {fs0[target], NewC} /\ Reach(fs, target) \in {Reach(fs0, target), NewC})
 \* (7) success leaves no temporary file behind
 TmpClean == (status = "done") => (queue = <<>> /\ loose = <<>> /\ cur = Nil)
 \* the directory changes only in steps of the commit stages
 CommitOnly == [][ (fs' # fs) => (last'.stage \in CommitStages) ]_vars
 \* instance sanity: a free backup name always exists within the modelled bound
-BoundOK == ~(sub = "find" /\ idx = NBk /\ fs[Cand] # "absent" /\ ~DevNoBackup /\ ~DevBackupOverwrite)
+BoundOK == ~(sub = "find" /\ idx = NBk /\ fs[Cand] # "absent" /\ ~DevNoBackup /\ ~DevBackupOverwrite /\ ~DevBackupCount)
 
 \* history note N3: all single-run claims, relative to the directory at the start of the run
 HistoryClean == NoEarlyEffect /\ SuccessState /\ OthersKept /\ OnlyBackupCreated
